@@ -110,6 +110,9 @@ Proof.
   rewrite is_ignored_nil by exact H. unfold kc_cmds, del_cmd. destruct (enode (c_old c)); reflexivity.
 Qed.
 
+Lemma kc_item_In c l : In c l -> In (epath (c_new c)) (map fst (map kc_item l)).
+Proof. intros I. rewrite map_map. apply in_map_iff. exists c. split; [reflexivity|exact I]. Qed.
+
 Definition kc_pre (f : fs) (c : change) : Prop :=
   let p := epath (c_new c) in
   epath (c_old c) = p /\ p <> [] /\
@@ -137,7 +140,7 @@ Proof.
     { intros c' I. destruct (H c' (or_intror I)) as (EP' & NE' & L0 & P0 & CH0 & LK0).
       set (p' := epath (c_new c')) in *.
       assert (p' <> p) as NPP.
-      { intros E. apply NI. fold p. rewrite <- E. apply in_map_iff. exists c'. split; [reflexivity|exact I]. }
+      { intros E. apply NI. fold p. rewrite <- E. apply kc_item_In; exact I. }
       unfold kc_pre. fold p'. split; [exact EP'|]. split; [exact NE'|]. split.
       - rewrite L1. unfold upd1. rewrite path_eqb_neq by exact NPP. exact L0.
       - split.
@@ -172,17 +175,26 @@ Proof.
   intros H. unfold cmds_added. apply flat_map_single. intros e. apply is_ignored_nil; exact H.
 Qed.
 
+Section AddGen.
+(* generic in the creating command: [create_cmd] for the incremental upload,
+   the *_robustly variants for the full upload *)
+Variable mk : path -> node -> cmd.
+Variable lk : path -> node -> Prop.
+Hypothesis mk_sets : forall p n u,
+  dom_ok (ufs u) -> look (ufs u) p = None -> parent_ok (ufs u) p = true -> lk p n ->
+  sets [mk p n] p n u.
+
 Definition add_pre (f : fs) (l : list entry) (e : entry) : Prop :=
   look f (epath e) = None /\ epath e <> [] /\
   (parent_ok f (epath e) = true \/
    exists e', In e' l /\ epath e' = parent (epath e) /\ enode e' = Dir) /\
-  (forall t, enode e = Link t -> parent (epath e) = []).
+  lk (epath e) (enode e).
 
-Lemma phase_add : forall l u,
+Lemma phase_add_gen : forall l u,
   dom_ok (ufs u) ->
   pf_okb (map epath l) = true ->
   (forall e, In e l -> add_pre (ufs u) l e) ->
-  exists u', run (map (fun e => create_cmd (epath e) (enode e)) l) u = (u', None) /\ dom_ok (ufs u') /\
+  exists u', run (map (fun e => mk (epath e) (enode e)) l) u = (u', None) /\ dom_ok (ufs u') /\
              pdel u' = pdel u /\ pren u' = pren u /\ ntmp u' = ntmp u /\
              forall q, look (ufs u') q = upd_all (map add_item l) (look (ufs u)) q.
 Proof.
@@ -200,7 +212,7 @@ Proof.
       - rewrite forallb_forall in PF1. specialize (PF1 (epath e') (in_map _ _ _ I)).
         rewrite EP in PF1. destruct (parent_prefix (epath e)) as (t & Et).
         rewrite Et in PF1 at 2. rewrite prefixb_app in PF1. discriminate. }
-    destruct (create_sets (epath e) (enode e) u D L P LK) as (u1 & E1 & D1 & A1 & B1 & C1 & L1).
+    destruct (mk_sets (epath e) (enode e) u D L P LK) as (u1 & E1 & D1 & A1 & B1 & C1 & L1).
     destruct (IH u1 D1 PF2) as (u' & E' & D' & A' & B' & C' & L').
     { intros e2 I. destruct (H e2 (or_intror I)) as (L2 & NE2 & PA2 & LK2).
       assert (epath e2 <> epath e) as NPP by (intros E; apply NI; rewrite <- E; apply in_map; exact I).
@@ -221,6 +233,13 @@ Proof.
       intros q. rewrite L'. rewrite (upd_all_ext _ _ _ _ (L1 q)).
       apply (upd_all_cons (epath e) (enode e)). unfold add_item. rewrite map_map. exact NI.
 Qed.
+End AddGen.
+
+Definition link_root (p : path) (n : node) : Prop := forall t, n = Link t -> parent p = [].
+
+Definition phase_add :=
+  phase_add_gen create_cmd link_root
+    (fun p n u D L P LK => create_sets p n u D L P LK).
 
 (* ---------- modifications ---------- *)
 Definition mod_cmd (c : change) : cmd :=
@@ -264,7 +283,7 @@ Proof.
     { intros c' I. destruct (H c' (or_intror I)) as (EN' & (c1 & x1 & L0) & P0).
       set (p' := epath (c_new c')) in *.
       assert (p' <> p) as NPP.
-      { intros E. apply NI. fold p. rewrite <- E. apply in_map_iff. exists c'. split; [reflexivity|exact I]. }
+      { intros E. apply NI. fold p. rewrite <- E. apply kc_item_In; exact I. }
       split; [exact EN'|]. split.
       - exists c1, x1. fold p'. rewrite L1. unfold upd1. rewrite path_eqb_neq by exact NPP. exact L0.
       - fold p'. rewrite <- P0. apply parent_ok_ext. intros PN. rewrite L1. unfold upd1.
